@@ -171,28 +171,21 @@ Theorem C17_umax : forall a b : N, umax a b = N.max a b.
 Proof. exact umax_correct. Qed.
 Print Assumptions C17_umax.
 
-(* SInt: correct as long as the operand difference fits the operand width ... *)
+(* SInt min / max: the signed minimum / maximum for ALL operands (the frontend comparison
+   subtracts one bit wider than the operands since /repo 1bb3187) *)
 Theorem C17_smin_smax : forall w a b : N,
   1 <= w -> a < 2 ^ w -> b < 2 ^ w ->
-  (- 2 ^ Z.of_N (w - 1) <= to_signed w a - to_signed w b < 2 ^ Z.of_N (w - 1))%Z ->
-  (- 2 ^ Z.of_N (w - 1) <= to_signed w b - to_signed w a < 2 ^ Z.of_N (w - 1))%Z ->
   to_signed w (smin w a b) = Z.min (to_signed w a) (to_signed w b) /\
   to_signed w (smax w a b) = Z.max (to_signed w a) (to_signed w b).
 Proof. exact smin_correct. Qed.
 Print Assumptions C17_smin_smax.
 Example C17_smin_ex : to_signed 4 (smin 4 14 3) = (-2)%Z.
 Proof. vm_compute. reflexivity. Qed.
+(* regression of the repaired defect: 4 bits, min(3, -7) = -7, max(3, -7) = 3 *)
+Example C17_smin_overflow_ex : smin 4 3 9 = 9 /\ smax 4 3 9 = 3.
+Proof. vm_compute. split; reflexivity. Qed.
 
-(* ... DEVIATION: and wrong otherwise (SInt '<' is the sign of the wrapped difference):
-   4 bits, min(3, -7) = 3, max(3, -7) = -7 *)
-Theorem C17_smin_refuted :
-  exists w a b, a < 2 ^ w /\ b < 2 ^ w /\
-    to_signed w (smin w a b) <> Z.min (to_signed w a) (to_signed w b) /\
-    to_signed w (smax w a b) <> Z.max (to_signed w a) (to_signed w b).
-Proof. exact smin_refuted. Qed.
-Print Assumptions C17_smin_refuted.
-
-(* ---------------------------------------------------------------- biggest power of two *)
+(* ---------------------------------------------------------------- biggest power of two: every width *)
 Theorem C17_bpo2 : forall (w : nat) (x : N),
   x < 2 ^ N.of_nat w -> bpo2 (bits_of_N w x) = if x =? 0 then 0 else 2 ^ N.log2 x.
 Proof. exact bpo2_N. Qed.
@@ -200,16 +193,11 @@ Print Assumptions C17_bpo2.
 Example C17_bpo2_ex : bpo2 (bits_of_N 8 100) = 64.
 Proof. vm_compute. reflexivity. Qed.
 
-Theorem C17_bpo2_gen : forall (w : nat) (x : N),
-  (w <= 31)%nat -> x < 2 ^ N.of_nat w ->
-  bpo2_gen (bits_of_N w x) = Some (if x =? 0 then 0 else 2 ^ N.log2 x).
-Proof. exact bpo2_gen_correct. Qed.
-Print Assumptions C17_bpo2_gen.
-
-(* DEVIATION: operands of 32 or more bits are rejected at design time (`1 << i` on a C++ int) *)
-Theorem C17_bpo2_wide_refuted : exists w x, x < 2 ^ N.of_nat w /\ bpo2_gen (bits_of_N w x) = None.
-Proof. exact bpo2_wide_refuted. Qed.
-Print Assumptions C17_bpo2_wide_refuted.
+(* regression of the repaired defect (operands of 32 bits and more; /repo e00fda2) *)
+Example C17_bpo2_wide_ex :
+  bpo2 (bits_of_N 32 2147483648) = 2147483648 /\ bpo2 (bits_of_N 64 (2 ^ 63 + 5)) = 2 ^ 63
+  /\ bpo2 (bits_of_N 100 (2 ^ 99 + 2 ^ 40)) = 2 ^ 99.
+Proof. exact bpo2_wide_examples. Qed.
 
 (* ---------------------------------------------------------------- long division *)
 Theorem C17_ldiv : forall (numW : nat) (denW num den : N),
